@@ -2,8 +2,8 @@ from props import S
 
 CFG = {
     "properties_file": "Properties/C27.v",
-    "corr_files": ["Corr/C27.v"],
-    "streams": [S("C27", "drive_portmap", 360, 12000)],
+    "corr_files": ["Corr/C27Bytes.v", "Corr/C27.v"],
+    "streams": [S("C27", "drive_portmap", 300, 12000)],
     "rule": "histories of 1-24 events (plus optional pre-registrations) on a fresh Portmapper: RPC call records for program "
             "100000 versions 2/3/4, procedures NULL/SET/UNSET/GETPORT|GETADDR/DUMP with keys drawn from a small per-case pool, "
             "plus unknown programs/versions/procedures, non-call records, rpcvers != 2, credentials/verifiers of 0-400 bytes, "
